@@ -331,6 +331,46 @@ pub fn run(ctx: &mut Ctx) {
         }
     }
 
+    // (iv-b) the policy switches as a settings *file* gives them: written out, and left out (the documented defaults are
+    // allow_private_network_connections = false, ipv6_available = true)
+    for (text, allow, v6ok) in [
+        ("", false, true),
+        ("allow_private_network_connections = false\n", false, true),
+        ("allow_private_network_connections = true\n", true, true),
+        ("ipv6_available = false\n", false, false),
+        ("allow_private_network_connections = true\nipv6_available = false\n", true, false),
+        ("ipv6_available = true\nallow_private_network_connections = false\n", false, true),
+    ] {
+        let toml_text = format!("listen_address = \"127.0.0.1:1\"\n{}[listen_protocols]\n[listen_protocols.http1]\n", text);
+        let settings: trusttunnel::settings::Settings = match toml::from_str(&toml_text) {
+            Ok(s) => s,
+            Err(e) => {
+                ctx.oracle_failure("settings_file", &format!("settings file {:?} was not read: {}", toml_text, e));
+                continue;
+            }
+        };
+        let hosts = trusttunnel::settings::TlsHostsSettings::builder()
+            .main_hosts(vec![trusttunnel::settings::TlsHostInfo { hostname: "localhost".into(), cert_chain_path: FIXTURE_PEM.into(), private_key_path: FIXTURE_PEM.into(), allowed_sni: vec![] }])
+            .build()
+            .unwrap();
+        let core = match Core::new(settings, None, hosts, trusttunnel::shutdown::Shutdown::new()) {
+            Ok(c) => c,
+            Err(e) => {
+                ctx.oracle_failure("settings_file", &format!("settings file {:?}: the endpoint does not start: {:?}", toml_text, e));
+                continue;
+            }
+        };
+        for ip in &pool {
+            let port = 1000 + ctx.rng.below(60000) as u16;
+            verif::hooks::reset();
+            verif::hooks::STATE.lock().unwrap().stub_tcp_connect_errno = Some(libc::ENETUNREACH);
+            let o = rt.block_on(verif::tcp_forwarder_connect(&core, verif::VTcpDestination::Address(SocketAddr::new(*ip, port))));
+            let attempts = verif::hooks::STATE.lock().unwrap().tcp_connects.clone();
+            ctx.emit(&format!("c03 connect {} {} addr {} {}", allow as u8, v6ok as u8, ip_tokens(ip), port), &outcome_str(&o, &attempts));
+            ctx.stat("policy_from_settings_file");
+        }
+    }
+
     // (v) canary listeners on this machine's non-global addresses, real connects (no stub):
     // with the restrictive policy no spelling may reach them
     verif::hooks::reset();
